@@ -24,8 +24,10 @@ func newMemWithUsers() (*memfs.MemFS, []avfs.UserReader) {
 	u1, _ := idm.AddUser("u1", "g1")
 	u2, _ := idm.AddUser("u2", "g2")
 	u3, _ := idm.AddUser("u3", "g1")
+	// an ordinary user whose primary group is the administrator's group: no privilege comes with the group
+	u4, _ := idm.AddUser("u4", idm.AdminGroup().Name())
 	v := memfs.NewWithOptions(&memfs.Options{Idm: idm})
-	return v, []avfs.UserReader{idm.AdminUser(), u1, u2, u3}
+	return v, []avfs.UserReader{idm.AdminUser(), u1, u2, u3, u4}
 }
 
 // viewAbs resolves a path given to a view into the absolute clean path of the view's namespace.
